@@ -169,8 +169,10 @@ func init() {
 		l.p("/-- … or contains one of these bytes -/")
 		l.p("def fieldQuoteBytes : List UInt8 := %s", bytesList(fb))
 
-		// NewFieldsFromKVString: `if len(v) > N { return … }` inside the range loop, and its position relative to strconv.Unquote
-		limit, limPos, unqPos := -1, token.NoPos, token.NoPos
+		// NewFieldsFromKVString: every `if len(v) > N { return … }` of the loop, and their positions relative to strconv.Unquote
+		limit, unqPos := -1, token.NoPos
+		var limPos []token.Pos
+		sameLimit := true
 		if fd := funcDecl(ff, "", "NewFieldsFromKVString"); fd == nil {
 			problem("field.NewFieldsFromKVString not found")
 		} else {
@@ -180,9 +182,14 @@ func init() {
 					if be, ok := x.Cond.(*ast.BinaryExpr); ok && be.Op == token.GTR {
 						if ce, ok := be.X.(*ast.CallExpr); ok {
 							if f, ok := ce.Fun.(*ast.Ident); ok && f.Name == "len" {
-								if bl, ok := be.Y.(*ast.BasicLit); ok && bl.Kind == token.INT && limit < 0 {
-									limit, _ = strconv.Atoi(bl.Value)
-									limPos = x.Pos()
+								if bl, ok := be.Y.(*ast.BasicLit); ok && bl.Kind == token.INT {
+									v, _ := strconv.Atoi(bl.Value)
+									if limit < 0 {
+										limit = v
+									} else if v != limit {
+										sameLimit = false
+									}
+									limPos = append(limPos, x.Pos())
 								}
 							}
 						}
@@ -198,11 +205,25 @@ func init() {
 				problem("field.NewFieldsFromKVString: length limit or strconv.Unquote call not found")
 				limit = 255
 			}
+			if !sameLimit {
+				problem("field.NewFieldsFromKVString: the length tests use different limits")
+			}
 		}
-		l.p("/-- the piece length limit of `NewFieldsFromKVString` -/")
+		before, after := false, false
+		for _, p := range limPos {
+			if unqPos != token.NoPos && p < unqPos {
+				before = true
+			}
+			if unqPos != token.NoPos && p > unqPos {
+				after = true
+			}
+		}
+		l.p("/-- the length limit of `NewFieldsFromKVString` -/")
 		l.p("def fieldMaxLen : Nat := %d", limit)
-		l.p("/-- the limit is tested on the raw piece, before `TrimSpaces` and `strconv.Unquote` (true today) -/")
-		l.p("def fieldLimitBeforeUnquote : Bool := %s", leanBool(limPos != token.NoPos && unqPos != token.NoPos && limPos < unqPos))
+		l.p("/-- the limit is tested on the raw piece, before `TrimSpaces` and `strconv.Unquote` -/")
+		l.p("def fieldLimitBeforeUnquote : Bool := %s", leanBool(before))
+		l.p("/-- the limit is tested again on the result of `strconv.Unquote` (fix 72eac47) -/")
+		l.p("def fieldLimitAfterUnquote : Bool := %s", leanBool(after))
 
 		// strconv.IsPrint of this toolchain
 		l.p("/-- maximal ranges of runes with `strconv.IsPrint` (Go toolchain that builds the harness) -/")
